@@ -239,7 +239,14 @@ func (c *ctx) c08History(label string, n, t int, mat0 []interface{}, ops []strin
 			probs = append(probs, c.signWith(cur, t, []byte(fmt.Sprintf("c08-%d-%d", seed, k)))...)
 		}
 	}
-	c.res.Corr(len(probs) == 0)
+	// the t=0 "share unchanged" outcome is what the model predicts too (C08_threshold0_shares_fixed): not a disagreement
+	disagree := 0
+	for _, p := range probs {
+		if !strings.HasPrefix(p, "share-unchanged/t=0") {
+			disagree++
+		}
+	}
+	c.res.Corr(disagree == 0)
 	c.res.Case(fmt.Sprintf("%s/n=%d/t=%d/len=%d", label, n, t, len(ops)), fmt.Sprintf("%s/%d/%d/%v/%d", label, n, t, ops, seed), true)
 	c.res.Sample(3, map[string]interface{}{"material": label, "n": n, "t": t, "history": hist})
 	seen := map[string]bool{}
